@@ -1,12 +1,16 @@
 (* C19 - Pixel decoding matches the hardware formats.
    Models: Model/Pixel.v (texture_decoder.rs, pixel_encodings.rs, texture_utils.rs, CI8 path of tpl.rs),
    Model/Etc1.v (etc1.rs, repaired: finding F15).  Specifications: Model/PixelSpec.v, written from the
-   published format descriptions.  The models are tied to /repo by `./check C19` (both build profiles). *)
-From Coq Require Import List NArith ZArith Bool.
-From Mila Require Import Lib.Bytes Lib.Machine Model.Pixel Model.PixelSpec Model.Etc1 Proofs.PixelProofs.
+   published format descriptions.  The models are tied to /repo by `./check C19` (both build profiles).
+   Format numbers: 0 RGBA8, 2 RGBA5551, 3 RGB565, 4 RGBA4, 5 LA8, 7 L8, 8 A8 (listed_color_format), 12 ETC1, 13 ETC1A4.
+   Every statement quantifies over the arithmetic mode m (Checked = overflow-checked build, Wrapping = release). *)
+From Coq Require Import List NArith ZArith Bool Lia.
+From Mila Require Import Lib.Bytes Lib.Machine Model.Pixel Model.PixelSpec Model.Etc1 Model.ColorFormat Proofs.TexFinite Proofs.PixelProofs
+  Proofs.Etc1Proofs Proofs.PaletteProofs Proofs.PixelAssembly Proofs.ColorFormatProofs.
 Import ListNotations.
 Local Open Scope N_scope.
 
+(* ---- tile order ---- *)
 (* the tile table is the Z-order curve: entry i is 8*y + x with x, y the de-interleaved bits of i (64 cases) *)
 Theorem C19_tile_order_is_morton : forall i, i < 64 -> tbl TILE_ORDER i = 8 * morton_y i + morton_x i.
 Proof. exact tile_order_morton. Qed.
@@ -14,6 +18,31 @@ Proof. exact tile_order_morton. Qed.
 Theorem C19_tile_order_inverse : forall x y, x < 8 -> y < 8 -> tbl TILE_ORDER (morton x y) = 8 * y + x.
 Proof. exact tile_order_inverse. Qed.
 
+(* ---- pixel source, raw formats ---- *)
+(* For every listed raw format, EVERY width and height that are multiples of 8 (the property's powers of two
+   8..128 are instances; w*h < 2^32 holds for all u16 dimensions) and a payload of exactly the required size, in
+   both modes: decoding succeeds with w*h pixels of four bytes, and pixel (X, Y) is decode_color of the
+   little-endian source element at its Z-order position tiled_index w X Y. *)
+Theorem C19_pixel_source : forall m fmt w h data X Y,
+  listed_color_format fmt = true -> w mod 8 = 0 -> h mod 8 = 0 -> w * h < 2 ^ 32 ->
+  lenN data = bytes_per_element fmt * (w * h) -> X < w -> Y < h ->
+  exists px, decode_pixel_data m data w h fmt = Ok (flatten px) /\ length px = N.to_nat (w * h) /\ Forall len4 px /\
+    nth_error px (N.to_nat (Y * w + X)) =
+      Some (decode_color (element (bytes_per_element fmt) data (tiled_index w X Y)) fmt).
+Proof. exact color_pixel_source. Qed.
+
+(* whenever decode_pixel_data returns (any format, any payload, any size), it returns exactly 4*w*h bytes *)
+Theorem C19_output_size : forall m data w h fmt out, 4 * w < 2 ^ 64 -> 4 * (w * h) < 2 ^ 64 ->
+  decode_pixel_data m data w h fmt = Ok out -> lenN out = 4 * (w * h).
+Proof. exact decode_pixel_data_size. Qed.
+
+(* mila's bytes-per-pixel table (get_pixel_format_bpp, used by ctpk::read to cut the payload) gives the size the
+   format requires, for all nine listed formats *)
+Theorem C19_payload_size : forall fmt w h, listed_format fmt = true -> w mod 8 = 0 -> h mod 8 = 0 ->
+  payload_size fmt w h = required_size fmt w h.
+Proof. exact payload_size_listed. Qed.
+
+(* ---- channels ---- *)
 (* every channel of every listed format lies within one quantisation step of the linear expansion of its
    source bits, exactly for 8-, 4- and 1-bit fields; luminance is copied to r, g, b; formats without alpha
    bits are opaque (all 2^16 / 2^8 values by computation; RGBA8 for all 2^32 values) *)
@@ -24,6 +53,177 @@ Proof. exact channels_all. Qed.
 Theorem C19_rgba5551_alpha : forall v, nth 3 (decode_color v 2) 0 = if N.testbit v 0 then 255 else 0.
 Proof. exact rgba5551_alpha. Qed.
 
-(* GameCube/Wii RGB5A3, all 65 536 values *)
+(* layout and channels together, as the property words it: for a payload of bytes, pixel (X, Y) is an admissible decoding
+   (color_ok: every channel within one quantisation step, exact for 8/4/1-bit fields ...) of the element at its Z-order position *)
+Theorem C19_pixel_within_step : forall m fmt w h data X Y,
+  listed_color_format fmt = true -> w mod 8 = 0 -> h mod 8 = 0 -> w * h < 2 ^ 32 ->
+  lenN data = bytes_per_element fmt * (w * h) -> wfb data -> X < w -> Y < h ->
+  exists px c, decode_pixel_data m data w h fmt = Ok (flatten px) /\ length px = N.to_nat (w * h) /\
+    nth_error px (N.to_nat (Y * w + X)) = Some c /\
+    color_ok fmt (element (bytes_per_element fmt) data (tiled_index w X Y)) c = true.
+Proof. exact color_pixel_ok. Qed.
+
+(* ---- ETC1 / ETC1A4 ---- *)
+(* block decode = the published rules, for every 64-bit block the rules define (individual mode: all; differential
+   mode: every base + delta in 0..31) and every alpha word.  decode_block has no mode parameter: the repaired code
+   (F15) adds with wrapping_add, so the build profile cannot matter. *)
+Theorem C19_etc1_exact : forall alphas pixels, etc1_in_range pixels = true ->
+  decode_block alphas pixels = etc1_spec alphas pixels.
+Proof. exact decode_block_exact. Qed.
+
+(* ETC1A4: for every texel of every block (in range or not) alpha = 17 * its nibble of the alpha word whatever the colour
+   word says, and r, g, b do not depend on the alpha word: an all-zero (or any other) alpha word never changes the colour *)
+Theorem C19_etc1a4_alpha_colour_independent : forall a p x y, x < 4 -> y < 4 ->
+  nth 3 (nth (N.to_nat (4 * y + x)) (decode_block a p) ZERO_PX) 0 = 17 * field a (4 * (4 * x + y)) 4 /\
+  forall a', firstn 3 (nth (N.to_nat (4 * y + x)) (decode_block a p) ZERO_PX) =
+             firstn 3 (nth (N.to_nat (4 * y + x)) (decode_block a' p) ZERO_PX).
+Proof. exact etc1a4_alpha_colour_independent. Qed.
+
+(* F15: the expression before the repair (`r + complement(..)` in u8) panics in a checked build on an in-range block
+   with a negative delta, and equals the repaired one in a wrapping build *)
+Theorem C19_etc1_F15_checked : etc1_in_range F15_BLOCK = true /\ block_colors_prefix Checked F15_BLOCK = Panic POverflow.
+Proof. exact F15_witness. Qed.
+Theorem C19_etc1_F15_wrapping : forall pixels, block_colors_prefix Wrapping pixels = Ok (block_colors pixels).
+Proof. exact block_colors_prefix_wrapping. Qed.
+
+(* image level, both modes, ETC1 (format 12) and ETC1A4 (13), through decode_pixel_data and through mila::decode:
+   pixel (X, Y) is texel (X mod 4, Y mod 4), as the published rules colour it, of the block with index
+   etc_block_index w X Y (8x8 tiles of 2x2 blocks; ETC1A4: the alpha word precedes the colour word).
+   For every multiple of 8 whose tile count the float expression yields exactly ... *)
+Theorem C19_etc1_image : forall m alpha w h data X Y,
+  w mod 8 = 0 -> h mod 8 = 0 -> etc_tiles w = w / 8 -> etc_tiles h = h / 8 -> w * h < 2 ^ 32 ->
+  lenN data = w * h / 16 * etc_block_bytes alpha -> X < w -> Y < h ->
+  exists px, decode_pixel_data m data w h (if alpha then 13 else 12) = Ok (flatten px) /\
+    etc1_decode m data w h alpha = Ok (flatten px) /\
+    length px = N.to_nat (w * h) /\ Forall len4 px /\
+    let bd := etc_block_at alpha data (etc_block_index w X Y) in
+    (etc1_in_range (snd bd) = true ->
+     nth_error px (N.to_nat (Y * w + X)) = Some (etc1_texel (fst bd) (snd bd) (X mod 4) (Y mod 4))).
+Proof. exact etc1_image_source. Qed.
+
+(* ... which includes every power of two from 8 up *)
+Theorem C19_etc1_image_pow2 : forall m alpha j k data X Y,
+  let w := 8 * 2 ^ j in let h := 8 * 2 ^ k in
+  w * h < 2 ^ 32 -> lenN data = w * h / 16 * etc_block_bytes alpha -> X < w -> Y < h ->
+  exists px, decode_pixel_data m data w h (if alpha then 13 else 12) = Ok (flatten px) /\
+    etc1_decode m data w h alpha = Ok (flatten px) /\
+    length px = N.to_nat (w * h) /\ Forall len4 px /\
+    let bd := etc_block_at alpha data (etc_block_index w X Y) in
+    (etc1_in_range (snd bd) = true ->
+     nth_error px (N.to_nat (Y * w + X)) = Some (etc1_texel (fst bd) (snd bd) (X mod 4) (Y mod 4))).
+Proof. exact etc1_image_source_pow2. Qed.
+
+(* ---- GameCube / Wii ---- *)
+(* RGB5A3, all 65 536 values *)
 Theorem C19_rgb5a3 : forall v, v < 65536 -> rgb5a3_ok v (decode_rgb5a3_pixel v) = true.
 Proof. exact rgb5a3_all. Qed.
+
+(* ColorFormat::RGB5A3.decode: pixel i is the decoding of the i-th big-endian u16 *)
+Theorem C19_rgb5a3_decode : forall data, lenN data mod 2 = 0 ->
+  exists px, rgb5a3_decode data = Ok px /\ length px = N.to_nat (lenN data / 2) /\
+    forall i, i < lenN data / 2 -> nth_error px (N.to_nat i) = Some (decode_rgb5a3_pixel (be16_at data i)).
+Proof. exact rgb5a3_decode_spec. Qed.
+
+(* ColorFormat::CI8.decode_indexed: the palette entries of the indices, in order *)
+Theorem C19_decode_indexed : forall data pal_bytes, lenN pal_bytes mod 4 = 0 ->
+  Forall (fun i => i < lenN pal_bytes / 4) data ->
+  decode_indexed_ci8 data pal_bytes = Ok (concat (map (fun i => firstn 4 (skipn (N.to_nat (4 * i)) pal_bytes)) data)).
+Proof. exact decode_indexed_spec. Qed.
+
+(* the public ColorFormat::decode / decode_indexed (Model/ColorFormat.v; 0 RGBA8, 1 RGB5A3, 2 CI8, other Unrecognized) are the two
+   functions above plus their error branches; GameCube RGBA8 is copied through *)
+Theorem C19_colorformat_decode_rgb5a3 : forall data, cf_decode 1 data =
+  match rgb5a3_decode data with Ok px => CfOk (flatten px) | _ => CfErr UnalignedData end.
+Proof. exact cf_decode_rgb5a3. Qed.
+Theorem C19_colorformat_decode_rgba8 : forall data, lenN data mod 4 = 0 -> cf_decode 0 data = CfOk data.
+Proof. exact cf_decode_rgba8. Qed.
+Theorem C19_colorformat_decode_indexed : forall data pal,
+  cf_decode_indexed 2 data pal =
+  match decode_indexed_ci8 data pal with Ok b => CfOk b | Err EOob => CfErr OutOfBoundsIndex | _ => CfErr UnalignedData end.
+Proof. exact cf_decode_indexed_ci8. Qed.
+Theorem C19_colorformat_decode_errors : forall fmt data,
+  (2 < fmt -> cf_decode fmt data = CfErr UnsupportedFormat) /\
+  (fmt = 2 -> cf_decode fmt data = CfErr NoPalette) /\
+  (fmt < 2 -> lenN data mod cf_bytes_per_pixel fmt <> 0 -> cf_decode fmt data = CfErr UnalignedData).
+Proof. exact cf_decode_errors. Qed.
+Theorem C19_colorformat_indexed_errors : forall fmt data pal,
+  (2 < fmt -> cf_decode_indexed fmt data pal = CfErr UnsupportedFormat) /\
+  (fmt < 2 -> cf_decode_indexed fmt data pal = CfErr NotIndexed).
+Proof. exact cf_decode_indexed_errors. Qed.
+
+(* CI8 images in 8x4 blocks of ANY size (every width and height >= 1, not only 1..64), cropped to the stated
+   dimensions (the CI8 path of Tpl::extract_textures: RGB5A3 palette, align, block_to_sequential, crop,
+   decode_indexed): pixel (x, y) is the decoded palette entry selected by the block-data byte at
+   ci8_index w x y = ((y/4)*(aw/8) + x/8)*32 + (y mod 4)*8 + x mod 8, aw = w aligned up to 8.
+   Only the indices of the visible pixels have to lie inside the palette. *)
+Theorem C19_palette : forall pal_data img w h,
+  1 <= w -> 1 <= h -> lenN img = align8 w * align4 h -> lenN pal_data mod 2 = 0 ->
+  (forall x y, x < w -> y < h -> nth (N.to_nat (ci8_index w x y)) img 0 < lenN pal_data / 2) ->
+  exists px, tpl_ci8_image pal_data img w h = Ok (flatten px) /\ length px = N.to_nat (w * h) /\
+    forall x y, x < w -> y < h ->
+      nth_error px (N.to_nat (y * w + x)) =
+        Some (decode_rgb5a3_pixel (be16_at pal_data (nth (N.to_nat (ci8_index w x y)) img 0))).
+Proof. exact palette_image_source. Qed.
+
+Theorem C19_palette_within_step : forall pal_data img w h,
+  1 <= w -> 1 <= h -> lenN img = align8 w * align4 h -> lenN pal_data mod 2 = 0 -> wfb pal_data ->
+  (forall x y, x < w -> y < h -> nth (N.to_nat (ci8_index w x y)) img 0 < lenN pal_data / 2) ->
+  exists px, tpl_ci8_image pal_data img w h = Ok (flatten px) /\ length px = N.to_nat (w * h) /\
+    forall x y, x < w -> y < h -> exists c,
+      nth_error px (N.to_nat (y * w + x)) = Some c /\
+      rgb5a3_ok (be16_at pal_data (nth (N.to_nat (ci8_index w x y)) img 0)) c = true.
+Proof. exact palette_pixel_ok. Qed.
+
+(* ---- the two build profiles ---- *)
+(* decode_pixel_data (all formats) and mila::decode give the same outcome in both modes for EVERY payload, as soon as
+   the byte count 4*w*h of the output fits the machine word (all u16 dimensions) *)
+Theorem C19_mode_independent : forall data w h, 4 * w < 2 ^ 64 -> 4 * (w * h) < 2 ^ 64 ->
+  (forall fmt, decode_pixel_data Checked data w h fmt = decode_pixel_data Wrapping data w h fmt) /\
+  (forall alpha, etc1_decode Checked data w h alpha = etc1_decode Wrapping data w h alpha).
+Proof. exact mode_independent_all. Qed.
+
+(* the RGB5A3 and palette models carry no mode because their machine arithmetic cannot overflow: the u16 products of
+   decode_rgb5a3_pixel fit for all 65 536 values; the usize sizes and indices of the CI8 path (u16 dimensions) stay
+   below the aligned area < 2^33 *)
+Theorem C19_mode_independent_rgb5a3 : forall v, v < 65536 -> Forall (fun p => p < 2 ^ 16) (rgb5a3_products v).
+Proof. exact rgb5a3_products_fit. Qed.
+Theorem C19_mode_independent_palette : forall w h, 1 <= w < 65536 -> 1 <= h < 65536 ->
+  let aw := align w 8 in let ah := align h 4 in
+  aw * ah < 2 ^ 33 /\
+  (forall i o, In (i, o) (b2s_pairs (N.to_nat aw) 8 4 (N.to_nat (aw * ah / 32))) -> N.of_nat i < aw * ah /\ N.of_nat o < aw * ah) /\
+  (forall r, r < h -> r * aw + w <= aw * ah).
+Proof. exact ci8_indices_fit. Qed.
+
+(* ---- the hypotheses are satisfiable ---- *)
+Example C19_ex_formats : forallb listed_format [0; 2; 3; 4; 5; 7; 8; 12; 13] = true /\ forallb listed_format [1; 6; 9; 10; 11; 14] = false.
+Proof. split; reflexivity. Qed.
+(* the property's five side lengths satisfy the size hypotheses of C19_pixel_source and C19_etc1_image *)
+Example C19_ex_sizes : forallb (fun w => (w mod 8 =? 0) && (etc_tiles w =? w / 8) && (w * w <? 2 ^ 32)) [8; 16; 32; 64; 128] = true.
+Proof. vm_compute. reflexivity. Qed.
+(* ... and so does 24, which is not a power of two, for the raw formats only *)
+Example C19_ex_size_24 : 24 mod 8 = 0 /\ etc_tiles 24 <> 24 / 8.
+Proof. split; [reflexivity|vm_compute; discriminate]. Qed.
+Definition ex_payload (n : nat) : bytes := map (fun i => N.of_nat (i * 37 + 11) mod 256) (seq 0 n).
+Example C19_ex_rgb565 : lenN (ex_payload 256) = bytes_per_element 3 * (16 * 8) /\
+  is_ok (decode_pixel_data Checked (ex_payload 256) 16 8 3) = true.
+Proof. split; vm_compute; reflexivity. Qed.
+(* a differential block with a negative delta is in range *)
+Example C19_ex_etc_block : etc1_in_range F15_BLOCK = true /\ etc1_diff F15_BLOCK = true /\ signed3 (field F15_BLOCK 56 3) = (-1)%Z.
+Proof. vm_compute. repeat split. Qed.
+(* an all-zero alpha word: transparent texels keep their colour (255, 255, 255 here: individual mode, base 15, +2) *)
+Example C19_ex_etc_zero_alpha : nth 0 (decode_block 0 (15 * 2 ^ 60 + 15 * 2 ^ 52 + 15 * 2 ^ 44)) ZERO_PX = [255; 255; 255; 0].
+Proof. vm_compute. reflexivity. Qed.
+Example C19_ex_etc_image : lenN (ex_payload 64) = 8 * 8 / 16 * etc_block_bytes true /\
+  is_ok (decode_pixel_data Wrapping (ex_payload 64) 8 8 13) = true.
+Proof. split; vm_compute; reflexivity. Qed.
+(* a 5x3 palette image with four colours *)
+Definition ex_img : bytes := map (fun i => N.of_nat i mod 4) (seq 0 32).
+Definition ex_pal : bytes := [0x80; 0x1F; 0x7F; 0xFF; 0x12; 0x34; 0xFF; 0xFF].
+Example C19_ex_palette : 1 <= 5 /\ 1 <= 3 /\ lenN ex_img = align8 5 * align4 3 /\ lenN ex_pal mod 2 = 0 /\
+  (forall x y, x < 5 -> y < 3 -> nth (N.to_nat (ci8_index 5 x y)) ex_img 0 < lenN ex_pal / 2) /\
+  is_ok (tpl_ci8_image ex_pal ex_img 5 3) = true.
+Proof.
+  split; [lia|]. split; [lia|]. split; [reflexivity|]. split; [reflexivity|]. split; [|vm_compute; reflexivity].
+  intros x y Hx Hy. apply N.ltb_lt.
+  exact (all_below2_spec 5 3 (fun x y => nth (N.to_nat (ci8_index 5 x y)) ex_img 0 <? lenN ex_pal / 2) ltac:(vm_compute; reflexivity) x y Hx Hy).
+Qed.
